@@ -511,9 +511,39 @@ fn bounds_gen(salt: u16, v: u8, d: u8) -> (String, String, String) {
             (Some(sk), _) => format!("#[scale_info({sk})]\n#[scale_info({b})]"),
         };
         let generics: Vec<String> = roles.iter().enumerate().map(|(i, role)| if *role == 1 || *role == 2 { format!("{}: 'static", NAMES[i]) } else { format!("{}: TypeInfo + 'static", NAMES[i]) }).collect();
-        let members: Vec<String> = roles.iter().enumerate().map(|(i, role)| if *role == 1 || *role == 2 { format!("core::marker::PhantomData<{}>", NAMES[i]) } else if d / 4 % 3 == 1 { format!("Vec<{}>", NAMES[i]) } else { NAMES[i].to_string() }).collect();
+        // the offender's only use may be a member the derive does not describe - a `#[codec(skip)]`
+        // member - or a self-referential member type: the parameter is still listed, so it still
+        // needs its bound
+        let all_params = NAMES[..n].join(", ");
+        let members: Vec<String> = roles
+            .iter()
+            .enumerate()
+            .map(|(i, role)| {
+                if *role == 1 || *role == 2 {
+                    format!("core::marker::PhantomData<{}>", NAMES[i])
+                } else if i == offender && v / 8 % 4 == 2 {
+                    format!("#[codec(skip)] {}", NAMES[i])
+                } else if i == offender && v / 8 % 4 == 3 {
+                    format!("Option<Box<X<{all_params}>>>")
+                } else if d / 4 % 3 == 1 {
+                    format!("Vec<{}>", NAMES[i])
+                } else {
+                    NAMES[i].to_string()
+                }
+            })
+            .collect();
+        // (a parameter used in a self-referential member only must appear elsewhere for rustc)
+        let self_ref_only = v / 8 % 4 == 3;
+        let mut members = members;
+        if self_ref_only {
+            members.push(format!("#[codec(skip)] core::marker::PhantomData<{}>", NAMES[offender]));
+        }
+        let named = |i: usize, m: &str| match m.strip_prefix("#[codec(skip)] ") {
+            Some(rest) => format!("#[codec(skip)] f{i}: {rest}"),
+            None => format!("f{i}: {m}"),
+        };
         let body = match d / 16 % 3 {
-            0 => format!("pub struct X<{}> {{ {} }}", generics.join(", "), members.iter().enumerate().map(|(i, m)| format!("f{i}: {m}")).collect::<Vec<_>>().join(", ")),
+            0 => format!("pub struct X<{}> {{ {} }}", generics.join(", "), members.iter().enumerate().map(|(i, m)| named(i, m)).collect::<Vec<_>>().join(", ")),
             1 => format!("pub struct X<{}>({});", generics.join(", "), members.join(", ")),
             _ => format!("pub enum X<{}> {{ {} }}", generics.join(", "), members.iter().enumerate().map(|(i, m)| format!("V{i}({m})")).collect::<Vec<_>>().join(", ")),
         };
